@@ -239,7 +239,7 @@ CASES = [
     ("viewcss", "http-response", "text/css", b"body { color: red; } /* c */ a:hover{margin:0}\n@media x { p { a: b } }", b"/p"),
     ("dns", "udp", None, _dns_seed(), b"/p"),
     ("dns", "http-response", "application/dns-message", _dns_seed(), b"/p"),
-    ("graphql", "http-request", "application/json", b'{"query":"query Q { a { b } }","variables":{"x":1}}', b"/p"),
+    ("graphql", "http-request", "application/json", b'{"query":"query Q {\\n a { b }\\n}","variables":{"x":1}}', b"/p"),
     ("http/3 frames", "tcp", None, b"\x01\x1d\x00\x00\xd1\xc1\xd7P\x8a\x08\x9d\\\x0b\x81p\xdcx\x0f\x03_P\x88%\xb6P\xc3\xab\xbc\xda\xe0\xdd\x00\x03abc", b"/p"),
     ("image", "http-response", "image/png", PNG, b"/p"),
     ("image", "http-response", "image/gif", GIF, b"/p"),
@@ -251,7 +251,7 @@ CASES = [
     ("query", "http-request", None, b"", b"/p?a=1&b=%20x&a=2"),
     ("raw", "http-response", "application/octet-stream", b"plain text body", b"/p"),
     ("socket.io", "ws-text", None, b'42["ev",{"a":1}]', b"/socket.io/?EIO=4"),
-    ("url-encoded", "http-request", "application/x-www-form-urlencoded", b"a=1&b=%20x&c&d=%C3%A9", b"/p"),
+    ("url-encoded", "http-request", "application/x-www-form-urlencoded", b"a=1&b=%20x&c&d=e", b"/p"),
     ("wbxml", "http-response", "application/vnd.wap.wbxml", b"\x03\x01\x6a\x00", b"/p"),
     ("xml/html", "http-response", "text/xml", b"<?xml version='1.0'?><a b='c'><d>e</d><!-- f --><![CDATA[g]]></a>", b"/p"),
     ("xml/html", "http-response", "text/html", b"<!DOCTYPE html><html><head><title>t</title></head><body><p class=x>y</p><script>var a='<';</script></body></html>", b"/p"),
